@@ -11,7 +11,11 @@ import (
 	"crypto/sha512"
 	"encoding/json"
 	"fmt"
+	"math"
 	"sort"
+	"strconv"
+	"strings"
+	"unicode/utf16"
 )
 
 const (
@@ -147,4 +151,210 @@ func refCommitment(jwk interface{}, alg int) string {
 // refReveal = B64(MH(alg, H(alg, JCS(jwk)))).
 func refReveal(jwk interface{}, alg int) string {
 	return refModelHash(jwk, alg)
+}
+
+// ---------------------------------------------------------------------------------------------
+// A full, independent RFC 8785 serializer (reference for C05 / C06): members sorted by UTF-16
+// code units, minimal escaping, ECMAScript number layout applied to strconv's shortest digits.
+
+func refJCS(v interface{}) ([]byte, error) {
+	var buf bytes.Buffer
+	if err := refJCSWrite(&buf, v); err != nil {
+		return nil, err
+	}
+
+	return buf.Bytes(), nil
+}
+
+// refJCSFromJSON parses JSON text (numbers kept as text, then read as IEEE-754 doubles).
+func refJCSFromJSON(text []byte) ([]byte, error) {
+	dec := json.NewDecoder(bytes.NewReader(text))
+	dec.UseNumber()
+
+	var g interface{}
+	if err := dec.Decode(&g); err != nil {
+		return nil, err
+	}
+
+	return refJCS(g)
+}
+
+func utf16Less(a, b string) bool {
+	ua, ub := utf16.Encode([]rune(a)), utf16.Encode([]rune(b))
+	for i := 0; i < len(ua) && i < len(ub); i++ {
+		if ua[i] != ub[i] {
+			return ua[i] < ub[i]
+		}
+	}
+
+	return len(ua) < len(ub)
+}
+
+func refJCSWrite(buf *bytes.Buffer, g interface{}) error {
+	switch t := g.(type) {
+	case map[string]interface{}:
+		keys := make([]string, 0, len(t))
+		for k := range t {
+			keys = append(keys, k)
+		}
+
+		sort.Slice(keys, func(i, j int) bool { return utf16Less(keys[i], keys[j]) })
+		buf.WriteByte('{')
+
+		for i, k := range keys {
+			if i > 0 {
+				buf.WriteByte(',')
+			}
+
+			refJCSString(buf, k)
+			buf.WriteByte(':')
+
+			if err := refJCSWrite(buf, t[k]); err != nil {
+				return err
+			}
+		}
+
+		buf.WriteByte('}')
+	case []interface{}:
+		buf.WriteByte('[')
+
+		for i, e := range t {
+			if i > 0 {
+				buf.WriteByte(',')
+			}
+
+			if err := refJCSWrite(buf, e); err != nil {
+				return err
+			}
+		}
+
+		buf.WriteByte(']')
+	case string:
+		refJCSString(buf, t)
+	case json.Number:
+		f, err := strconv.ParseFloat(t.String(), 64)
+		if err != nil {
+			return err
+		}
+
+		s, err := es6Number(f)
+		if err != nil {
+			return err
+		}
+
+		buf.WriteString(s)
+	case float64:
+		s, err := es6Number(t)
+		if err != nil {
+			return err
+		}
+
+		buf.WriteString(s)
+	case int:
+		buf.WriteString(strconv.Itoa(t))
+	case bool:
+		if t {
+			buf.WriteString("true")
+		} else {
+			buf.WriteString("false")
+		}
+	case nil:
+		buf.WriteString("null")
+	default:
+		return fmt.Errorf("refJCS: unsupported %T", g)
+	}
+
+	return nil
+}
+
+func refJCSString(buf *bytes.Buffer, s string) {
+	buf.WriteByte('"')
+
+	for _, r := range s {
+		switch {
+		case r == '"':
+			buf.WriteString(`\"`)
+		case r == '\\':
+			buf.WriteString(`\\`)
+		case r == '\b':
+			buf.WriteString(`\b`)
+		case r == '\f':
+			buf.WriteString(`\f`)
+		case r == '\n':
+			buf.WriteString(`\n`)
+		case r == '\r':
+			buf.WriteString(`\r`)
+		case r == '\t':
+			buf.WriteString(`\t`)
+		case r < 0x20:
+			fmt.Fprintf(buf, `\u%04x`, r)
+		default:
+			buf.WriteRune(r)
+		}
+	}
+
+	buf.WriteByte('"')
+}
+
+// es6Digits returns the shortest round-trip decimal digits d1..dk and the exponent n such that
+// the value is 0.d1..dk x 10^n (digits from strconv, which is trusted only as a digit source).
+func es6Digits(f float64) (digits string, n int) {
+	s := strconv.FormatFloat(math.Abs(f), 'e', -1, 64) // d.ddddde±xx
+	mant, exp, _ := strings.Cut(s, "e")
+	e, _ := strconv.Atoi(exp)
+	digits = strings.Replace(mant, ".", "", 1)
+	digits = strings.TrimRight(digits, "0")
+
+	if digits == "" {
+		digits = "0"
+	}
+
+	return digits, e + 1
+}
+
+// es6Layout is ECMA-262 Number::toString for digits d1..dk and exponent n (value = 0.d1..dk x 10^n).
+func es6Layout(digits string, n int) string {
+	k := len(digits)
+
+	switch {
+	case k <= n && n <= 21:
+		return digits + strings.Repeat("0", n-k)
+	case 0 < n && n <= 21:
+		return digits[:n] + "." + digits[n:]
+	case -6 < n && n <= 0:
+		return "0." + strings.Repeat("0", -n) + digits
+	}
+
+	e := n - 1
+	sign := "+"
+
+	if e < 0 {
+		sign = "-"
+		e = -e
+	}
+
+	if k == 1 {
+		return digits + "e" + sign + strconv.Itoa(e)
+	}
+
+	return digits[:1] + "." + digits[1:] + "e" + sign + strconv.Itoa(e)
+}
+
+func es6Number(f float64) (string, error) {
+	if math.IsNaN(f) || math.IsInf(f, 0) {
+		return "", fmt.Errorf("refJCS: not a finite number")
+	}
+
+	if f == 0 {
+		return "0", nil
+	}
+
+	d, n := es6Digits(f)
+	s := es6Layout(d, n)
+
+	if f < 0 {
+		s = "-" + s
+	}
+
+	return s, nil
 }
